@@ -119,8 +119,8 @@ def iterable_to_table(
 
 def hist1d_to_csv(hist, header=None, separator=',', duplicate_last_bin=True):
     """Yield CSV-formatted strings for a one-dimensional histogram."""
-    bins_ = hist.bins
-    edges_ = hist.edges
+    # edges of a one-dimensional histogram can be nested in a list
+    bins_, (edges_,) = lena.structures.unify_1_md(hist.bins, hist.edges)
     bin_content = None
     if header:
         yield header
